@@ -31,7 +31,8 @@ TRUSTED_BASE = [
     "tied to pkg/object/mqttproxy on every run by the correspondence (sampled): real Broker on loopback, raw TCP clients, in-package snapshots",
     "the property checker replays the statement's clauses on the implementation's own snapshots (independent of the model); the ideal model's "
     "own snapshots are required to pass the same checker on every case",
-    "subscriptions per client id are a finite map filter -> QoS (the trie is C14's subject); filter/topic matching is a per-case oracle",
+    "subscriptions per client id are a finite map filter -> QoS (the trie is C14's subject); filter/topic matching is the declarative "
+    "MQTT matcher of EG.model.Topic, independent of the code (the real TopicManager's verdict is only cross-checked)",
     "quiescence of the broker is decided from goroutine dumps (all broker goroutines parked, expected number of connection goroutines)",
 ]
 ASSUMPTIONS = [
@@ -96,7 +97,7 @@ def encode(c):
         elif k == "admin":
             t = C("LAdmin", S(op["cid"]))
         elif k == "pub":
-            t = C("LPub", L([T(S(f), B(m)) for f, m in zip(st.get("filters") or [], st.get("match") or [])]),
+            t = C("LPub", S(op["topic"]), L([T(S(f), B(m)) for f, m in zip(st.get("filters") or [], st.get("match") or [])]),
                   L([Z(x) for x in st.get("recv") or []]))
         else:
             continue
